@@ -288,6 +288,99 @@ fn cases(tier: &str, seed: u64) -> Vec<Case> {
             }
         }
     }
+    // ---- brc20_transact with hand-built RLP: every field of the signed legacy transaction over a boundary menu
+    // (signature values 0 / 1 / n-1 / n / 2^256-1 / 33 bytes, v in every convention and beyond 64 bits, recipients
+    // of 19 / 20 / 21 bytes) and well-signed transactions with extreme gas / value / nonce fields ----
+    {
+        fn rlp_item(b: &[u8]) -> Vec<u8> {
+            if b.len() == 1 && b[0] < 0x80 {
+                return vec![b[0]];
+            }
+            let mut v = Vec::new();
+            if b.len() < 56 {
+                v.push(0x80 + b.len() as u8);
+            } else {
+                let l = (b.len() as u64).to_be_bytes();
+                let l: Vec<u8> = l.iter().cloned().skip_while(|x| *x == 0).collect();
+                v.push(0xb7 + l.len() as u8);
+                v.extend_from_slice(&l);
+            }
+            v.extend_from_slice(b);
+            v
+        }
+        fn rlp_uint(b: &[u8]) -> Vec<u8> {
+            let t: Vec<u8> = b.iter().cloned().skip_while(|x| *x == 0).collect();
+            rlp_item(&t)
+        }
+        fn rlp_list(items: &[Vec<u8>]) -> Vec<u8> {
+            let body: Vec<u8> = items.concat();
+            let mut v = Vec::new();
+            if body.len() < 56 {
+                v.push(0xc0 + body.len() as u8);
+            } else {
+                let l = (body.len() as u64).to_be_bytes();
+                let l: Vec<u8> = l.iter().cloned().skip_while(|x| *x == 0).collect();
+                v.push(0xf7 + l.len() as u8);
+                v.extend_from_slice(&l);
+            }
+            v.extend_from_slice(&body);
+            v
+        }
+        let chain = crate::inst::chain_id();
+        let order = hex::decode("fffffffffffffffffffffffffffffffebaaedce6af48a03bbfd25e8cd0364141").unwrap();
+        let mut order_m1 = order.clone();
+        *order_m1.last_mut().unwrap() -= 1;
+        let half_p1 = hex::decode("7fffffffffffffffffffffffffffffff5d576e7357a4501ddfe92f46681b20a1").unwrap();
+        let s_bytes = hex::decode(s.trim_start_matches("0x")).unwrap();
+        let tos: Vec<(&str, Vec<u8>)> = vec![("creation", vec![]), ("S", s_bytes.clone()), ("19 bytes", s_bytes[1..].to_vec()), ("21 bytes", [s_bytes.clone(), vec![1]].concat())];
+        let vs: Vec<(String, Vec<u8>)> = vec![
+            ("0".into(), vec![]), ("1".into(), vec![1]), ("27".into(), vec![27]), ("28".into(), vec![28]), ("35".into(), vec![35]),
+            ("2c+35".into(), (chain as u128 * 2 + 35).to_be_bytes().to_vec()), ("2c+36".into(), (chain as u128 * 2 + 36).to_be_bytes().to_vec()),
+            ("2^64-1".into(), u64::MAX.to_be_bytes().to_vec()), ("2^64".into(), vec![1, 0, 0, 0, 0, 0, 0, 0, 0]), ("2^128".into(), [vec![1u8], vec![0u8; 16]].concat()),
+        ];
+        let rs: Vec<(&str, Vec<u8>)> = vec![("0", vec![]), ("1", vec![1]), ("n-1", order_m1.clone()), ("n", order.clone()), ("2^256-1", vec![0xff; 32]), ("33 bytes", vec![0x01; 33])];
+        let ss: Vec<(&str, Vec<u8>)> = vec![("0", vec![]), ("1", vec![1]), ("n/2+1", half_p1), ("n-1", order_m1), ("2^256-1", vec![0xff; 32])];
+        let z = zero32();
+        for nonce in [0u64, u64::MAX] {
+            for (tn, to) in &tos {
+                for (vn, v_) in &vs {
+                    for (rn, r_) in &rs {
+                        for (sn, s_) in &ss {
+                            if !thorough && (nonce == u64::MAX) && !(rn == &"1" || sn == &"1") {
+                                continue;
+                            }
+                            let raw = rlp_list(&[rlp_uint(&nonce.to_be_bytes()), rlp_uint(&[]), rlp_uint(&[]), rlp_item(to), rlp_uint(&[]), rlp_item(&[6, 0]), rlp_uint(v_), rlp_uint(r_), rlp_uint(s_)]);
+                            v.push(Case::Request { state: 1, req: Req { method: "brc20_transact".into(), label: "rlp".into(), params: json!({"raw_tx_data": hx(&raw), "timestamp": 5, "hash": z, "tx_idx": 0, "inscription_id": "rlp-grid", "inscription_byte_len": DEFAULT_LEN, "op_return_tx_id": z}) }, what: format!("brc20_transact raw legacy transaction nonce {} to {} v {} r {} s {}", nonce, tn, vn, rn, sn) });
+                        }
+                    }
+                }
+            }
+        }
+        // well-signed, with extreme fields
+        {
+            use alloy::primitives::{Bytes, TxKind, U256};
+            use alloy_consensus::transaction::RlpEcdsaEncodableTx;
+            use alloy_consensus::{SignableTransaction, TxLegacy};
+            use alloy_signer::SignerSync;
+            let signer = crate::sign::signer(2);
+            for (what, tx) in [
+                ("gas limit 2^64-1", TxLegacy { chain_id: Some(chain), nonce: 0, gas_price: 0, gas_limit: u64::MAX, to: TxKind::Call(s.parse().unwrap()), value: U256::ZERO, input: Bytes::from(vec![6u8, 0]) }),
+                ("gas price 2^128-1", TxLegacy { chain_id: Some(chain), nonce: 0, gas_price: u128::MAX, gas_limit: 21000, to: TxKind::Call(s.parse().unwrap()), value: U256::ZERO, input: Bytes::from(vec![6u8, 0]) }),
+                ("value 2^256-1", TxLegacy { chain_id: Some(chain), nonce: 0, gas_price: 0, gas_limit: 0, to: TxKind::Call(s.parse().unwrap()), value: U256::MAX, input: Bytes::from(vec![6u8, 0]) }),
+                ("nonce 2^64-1", TxLegacy { chain_id: Some(chain), nonce: u64::MAX, gas_price: 0, gas_limit: 0, to: TxKind::Call(s.parse().unwrap()), value: U256::ZERO, input: Bytes::from(vec![6u8, 0]) }),
+                ("chain id 2^64-1", TxLegacy { chain_id: Some(u64::MAX), nonce: 0, gas_price: 0, gas_limit: 0, to: TxKind::Call(s.parse().unwrap()), value: U256::ZERO, input: Bytes::from(vec![6u8, 0]) }),
+                ("no chain id, creation with value", TxLegacy { chain_id: None, nonce: 0, gas_price: 1, gas_limit: 1, to: TxKind::Create, value: U256::from(1u64), input: Bytes::from(crate::asm::CHILD_INIT.to_vec()) }),
+                ("100 kB of call data", TxLegacy { chain_id: Some(chain), nonce: 0, gas_price: 0, gas_limit: 0, to: TxKind::Call(s.parse().unwrap()), value: U256::ZERO, input: Bytes::from(vec![0x11u8; 100_000]) }),
+            ] {
+                let sig = signer.sign_hash_sync(&tx.signature_hash()).expect("sign");
+                let mut raw = Vec::new();
+                tx.rlp_encode_signed(&sig, &mut raw);
+                for len in [DEFAULT_LEN, 0, u64::MAX] {
+                    v.push(Case::Request { state: 1, req: Req { method: "brc20_transact".into(), label: "rlp".into(), params: json!({"raw_tx_data": hx(&raw), "timestamp": 5, "hash": z, "tx_idx": 0, "inscription_id": "signed-extreme", "inscription_byte_len": len, "op_return_tx_id": z}) }, what: format!("brc20_transact well-signed transaction with {} (inscription length {})", what, len) });
+                }
+            }
+        }
+    }
     // ---- call shapes: every simulating method x sender kind x target kind x call-data size (a sender
     // with code, or call data whose intrinsic cost exceeds a bisection probe, is refused by the EVM
     // before execution: the error arms of the single- and multi-call paths) ----
